@@ -169,7 +169,9 @@ def build_driver(pkg, cppdir, flags=("-O0",), with_ndjson=True, extra_main="", t
     if not ok:
         return None, errors
     exe = os.path.join(cppdir, "driver" + tag)
-    p = build.run(["g++"] + [f for f in flags if f.startswith("-fsanitize")] + objs + ["-o", exe], cwd=cppdir)
+    # objects are linked in the reverse of the order CMakeLists.txt lists the sources (types.o last): static objects of the generated
+    # code must not depend on the initialisation order of translation units, which the standard leaves open
+    p = build.run(["g++"] + [f for f in flags if f.startswith("-fsanitize")] + list(reversed(objs)) + ["-o", exe], cwd=cppdir)
     if p.returncode != 0:
         return None, {"link": p.stderr.decode(errors="replace")[:4000]}
     return exe, {}
